@@ -116,7 +116,7 @@ class DefaultDictNode(Node):
         }
 
     def _construct(self):
-        instance = defaultdict(**self.children["main"].construct())
+        instance = defaultdict(None, self.children["main"].construct())
         instance.default_factory = self.children["default_factory"].construct()
         return instance
 
